@@ -1,4 +1,5 @@
 import PV.C19.Defs
+import PV.C17.Clamp
 /-
   C19 — helper lemmas.  Each parser phase of the model is the corresponding reference phase
   decorated with indices (`decorate`), the template loop is `group ∘ pyItems` with a pending literal,
@@ -767,35 +768,6 @@ theorem take_min (b : List Nat) (p : Nat) : b.take (min b.length p) = b.take p :
 
 /-! ### floats -/
 
-theorem formatFixed_isSome (p bits : Nat) (up alt : Bool) (h : p ≤ 65535) :
-    (formatFixed p bits up alt).isSome = true := by
-  have h1 : fmtArgOk p = true := by simp [fmtArgOk]; omega
-  simp only [formatFixed, rustFixed, h1, if_true]
-  split <;> (try split) <;> rfl
-
-theorem formatExponent_isSome (p bits : Nat) (up alt : Bool) (h : p ≤ 65534) :
-    (formatExponent p bits up alt).isSome = true := by
-  have h1 : fmtArgOk (p + 1) = true := by simp [fmtArgOk]; omega
-  simp only [formatExponent, rustExp, h1, if_true]
-  split <;> (try split) <;> rfl
-
-theorem formatGeneral_isSome (P bits : Nat) (up alt : Bool) (hP : 1 ≤ P) (hP' : P ≤ 65530) :
-    (formatGeneral P bits up alt).isSome = true := by
-  have h1 : fmtArgOk (P - 1 + 1) = true := by simp [fmtArgOk]; omega
-  have h2 : fmtArgOk (P + 1) = true := by simp [fmtArgOk]; omega
-  have hmax : max P 1 = P := Nat.max_eq_left hP
-  simp only [formatGeneral, hmax, rustExp, rustFixed, h1, h2, if_true]
-  split
-  · rfl
-  · split
-    · rfl
-    · split
-      · rfl
-      · rename_i hcond
-        have h3 : fmtArgOk ((P : Int) - 1 - (PV.Dec.toExpL bits (P - 1)).2).toNat = true := by
-          simp [fmtArgOk]; omega
-        simp [h3]
-
 theorem toRadixGo_ne_nil : ∀ (fuel b n : Nat) (up : Bool) (acc : List Nat),
     (fuel ≠ 0 ∨ acc ≠ []) → toRadixGo fuel b n up acc ≠ [] := by
   intro fuel
@@ -834,51 +806,6 @@ theorem removeRedundant_false (s : List Nat) : removeRedundant s false = trimFra
 theorem removeRedundant_true (s : List Nat) : removeRedundant s true = s := by
   simp [removeRedundant]
 
-/-- The digit text of a float conversion equals the C `printf` reference on the same correctly
-    rounded digits (`PV.Dec`), provided `format!` gets a precision it accepts and the digit generator
-    returns the `P` significant digits asked for (`hlen`, only used by `%g`). -/
-theorem floatBody_eq (spec : Spec) (bits : Nat) (k : FloatKind) (up : Bool)
-    (ht : spec.ftype = .float k up) (hp : floatPrecision spec ≤ 65530)
-    (hfin : PV.Dec.isNan (bits % 2 ^ 63) = false ∧ PV.Dec.isInf (bits % 2 ^ 63) = false)
-    (hlen : ∀ P, k = .gen → P = (if floatPrecision spec = 0 then 1 else floatPrecision spec) →
-      (PV.Dec.toExpL (bits % 2 ^ 63) (P - 1)).1.length ≤ P + 1) :
-    floatBody spec bits =
-      some (pyFloatBody k up spec.flags.alt (floatPrecision spec) (bits % 2 ^ 63)) := by
-  obtain ⟨hnan, hinf⟩ := hfin
-  simp only [floatBody, ht]
-  cases k
-  · -- exp
-    have h1 : fmtArgOk (floatPrecision spec + 1) = true := by simp [fmtArgOk]; omega
-    simp [formatExponent, rustExp, h1, hnan, hinf, pyFloatBody, sci, decimalPointOrEmpty, expText_eq]
-  · -- fix
-    have h1 : fmtArgOk (floatPrecision spec) = true := by simp [fmtArgOk]; omega
-    simp [formatFixed, rustFixed, h1, hnan, hinf, pyFloatBody, decimalPointOrEmpty]
-  · -- gen
-    have hl := hlen _ rfl rfl
-    generalize hP : (if floatPrecision spec = 0 then 1 else floatPrecision spec) = P at hl ⊢
-    have hP1 : 1 ≤ P ∧ P ≤ 65530 := by subst hP; split <;> omega
-    have h1 : fmtArgOk (P - 1 + 1) = true := by simp [fmtArgOk]; omega
-    have h2 : fmtArgOk (P + 1) = true := by simp [fmtArgOk]; omega
-    have hmax : max P 1 = P := Nat.max_eq_left hP1.1
-    simp only [formatGeneral, hmax, rustExp, rustFixed, h1, h2, if_true, hnan, hinf, pyFloatBody, sci, hP]
-    simp only [Bool.false_eq_true, if_false]
-    generalize hx : PV.Dec.toExpL (bits % 2 ^ 63) (P - 1) = mx at hl ⊢
-    obtain ⟨m, x⟩ := mx
-    simp only at hl ⊢
-    have htake : m.take (P + 1) = m := List.take_of_length_le hl
-    by_cases hc : x < -4 ∨ x ≥ (P : Int)
-    · simp only [hc, if_true, htake, expText_eq]
-      cases halt : spec.flags.alt
-      · simp [removeRedundant_false, decimalPointOrEmpty]
-      · have : (P - 1 = 0) = (P = 1) := by apply propext; omega
-        simp [removeRedundant_true, decimalPointOrEmpty, this]
-    · simp only [hc, if_false]
-      have h3 : fmtArgOk ((P : Int) - 1 - x).toNat = true := by simp [fmtArgOk]; omega
-      simp only [h3, if_true]
-      cases halt : spec.flags.alt
-      · simp [removeRedundant_false, decimalPointOrEmpty]
-      · simp [removeRedundant_true, decimalPointOrEmpty]
-
 theorem expField_abs (bits : Nat) : PV.Dec.expField (bits % 2 ^ 63) = PV.Dec.expField bits := by
   unfold PV.Dec.expField
   omega
@@ -893,6 +820,86 @@ theorem isNan_abs (bits : Nat) : PV.Dec.isNan (bits % 2 ^ 63) = PV.Dec.isNan bit
 theorem isInf_abs (bits : Nat) : PV.Dec.isInf (bits % 2 ^ 63) = PV.Dec.isInf bits := by
   simp only [PV.Dec.isInf, expField_abs, fracField_abs]
 
+/-- `num.abs()` clears the sign bit -/
+theorem isNeg_abs (bits : Nat) : PV.Dec.isNeg (bits % 2 ^ 63) = false := by
+  unfold PV.Dec.isNeg
+  have : bits % 2 ^ 63 / 2 ^ 63 = 0 := Nat.div_eq_of_lt (Nat.mod_lt _ (by omega))
+  simp [this]
+
+theorem finite_of_not_special {b : Nat} (h1 : PV.Dec.isNan b = false) (h2 : PV.Dec.isInf b = false) :
+    PV.Dec.isFinite b = true := by
+  unfold PV.Dec.isNan at h1
+  unfold PV.Dec.isInf at h2
+  unfold PV.Dec.isFinite
+  by_cases he : PV.Dec.expField b = 2047
+  · by_cases hf : PV.Dec.fracField b = 0 <;> simp_all
+  · simpa using he
+
+/-- the clamped `{:.digits$}{zeros}` is `{:.precision$}` (`PV.C17.fixedClamped_eq`: a double has no
+    non-zero digit beyond the 1074th decimal) -/
+theorem rustFixed_eq (bits p : Nat) (hf : PV.Dec.isFinite bits = true) :
+    rustFixed bits p = PV.Dec.toFixedL bits p :=
+  PV.C17.fixedClamped_eq bits p hf
+
+/-- the clamped `{:.digits$e}` with the zeros appended is `{:.precision$e}` (`PV.C17.toExpL_clamp`) -/
+theorem rustExp_eq (bits p : Nat) :
+    PV.Dec.toExpL bits p = ((rustExp bits p).1 ++ zerosBeyond p, (rustExp bits p).2) :=
+  PV.C17.toExpL_clamp bits p
+
+/-- the three `float.rs` helpers on a finite non-negative double are the C `printf` reference on the
+    same correctly rounded digits (`PV.Dec`) — for every precision -/
+theorem floatText_eq (k : FloatKind) (up alt : Bool) (prec mag : Nat)
+    (hnan : PV.Dec.isNan mag = false) (hinf : PV.Dec.isInf mag = false) (hs : PV.Dec.isNeg mag = false) :
+    (match k with
+      | .fix => formatFixed prec mag up alt
+      | .exp => formatExponent prec mag up alt
+      | .gen => formatGeneral (if prec = 0 then 1 else prec) mag up alt) =
+      pyFloatBody k up alt prec mag := by
+  have hf := finite_of_not_special hnan hinf
+  cases k
+  · -- exp
+    simp only [formatExponent, hnan, hinf, pyFloatBody, sci, rustExp_eq mag prec]
+    simp [decimalPointOrEmpty, expText_eq]
+  · -- fix
+    simp [formatFixed, rustFixed_eq _ _ hf, hnan, hinf, pyFloatBody, decimalPointOrEmpty]
+  · -- gen
+    generalize hP : (if prec = 0 then 1 else prec) = P
+    have hP1 : 1 ≤ P := by subst hP; split <;> omega
+    have hmax : max P 1 = P := Nat.max_eq_left hP1
+    simp only [formatGeneral, hmax, hnan, hinf, pyFloatBody, sci, hP, rustExp_eq mag (P - 1)]
+    simp only [Bool.false_eq_true, if_false]
+    have hlen := PV.C17.toExpL_length mag (min (P - 1) maxFloatDigits) hs
+    change (rustExp mag (P - 1)).1.length = _ at hlen
+    generalize rustExp mag (P - 1) = mx at hlen ⊢
+    obtain ⟨m, x⟩ := mx
+    simp only at hlen ⊢
+    have htake : m.take (min (P - 1) maxFloatDigits + 2) = m :=
+      List.take_of_length_le (by rw [hlen]; split <;> omega)
+    by_cases hc : x < -4 ∨ x ≥ (P : Int)
+    · simp only [hc, if_true, htake, expText_eq]
+      cases alt
+      · simp [removeRedundant_false, decimalPointOrEmpty]
+      · have : (P - 1 = 0) = (P = 1) := by apply propext; omega
+        simp [removeRedundant_true, decimalPointOrEmpty, this]
+    · simp only [hc, if_false, formatFixed, hnan, hinf, Bool.false_eq_true, rustFixed_eq _ _ hf]
+      cases alt
+      · simp [removeRedundant_false, decimalPointOrEmpty]
+      · simp [removeRedundant_true, decimalPointOrEmpty]
+
+/-- The digit text of a float conversion equals the C `printf` reference on the same correctly
+    rounded digits (`PV.Dec`) — for every precision: the digit clamp of `float.rs` is exact, and the
+    `{:.*}` truncation of the `%g` mantissa never cuts (`PV.C17.toExpL_length`). -/
+theorem floatBody_eq (spec : Spec) (bits : Nat) (k : FloatKind) (up : Bool)
+    (ht : spec.ftype = .float k up)
+    (hfin : PV.Dec.isNan (bits % 2 ^ 63) = false ∧ PV.Dec.isInf (bits % 2 ^ 63) = false) :
+    floatBody spec bits =
+      some (pyFloatBody k up spec.flags.alt (floatPrecision spec) (bits % 2 ^ 63)) := by
+  obtain ⟨hnan, hinf⟩ := hfin
+  have key := floatText_eq k up spec.flags.alt (floatPrecision spec) (bits % 2 ^ 63) hnan hinf (isNeg_abs bits)
+  unfold floatBody
+  rw [ht]
+  cases k <;> exact congrArg some key
+
 theorem floatPrecision_eq (spec : Spec) :
     floatPrecision spec = (resolve (toPyPrec spec.prec)).getD 6 := by
   unfold floatPrecision
@@ -905,6 +912,6 @@ theorem floatBody_nonfinite (spec : Spec) (bits : Nat) (k : FloatKind) (up : Boo
       some (if PV.Dec.isNan (bits % 2 ^ 63) then nanText up else infText up) := by
   simp only [floatBody, ht]
   cases k <;> simp only [formatExponent, formatFixed, formatGeneral] <;>
-    rcases h with h | h <;> simp [h] <;> split <;> rfl
+    rcases h with h | h <;> simp [h]
 
 end PV.C19
